@@ -166,6 +166,40 @@ func (x *Exec) modTargets(env *Env, item string) ([]modTarget, error) {
 		}
 		return x.mapTargets(types.NewMap(kt, vt), nil), nil
 	}
+	if strings.HasPrefix(item, "ghostall(") && strings.HasSuffix(item, ")") {
+		// ghostall(T.$f): the ghost field f of every object of type T
+		inner := item[9 : len(item)-1]
+		i := strings.Index(inner, ".$")
+		if i < 0 {
+			return nil, fmt.Errorf("ghostall(T.$f) expected")
+		}
+		ty, err := x.prog.LookupType(inner[:i], env.pkg)
+		if err != nil {
+			return nil, err
+		}
+		name := inner[i+2:]
+		var gf *GhostField
+		for k := range x.cs.Ghosts {
+			g := &x.cs.Ghosts[k]
+			if g.Name == name {
+				if gt, err := x.prog.LookupType(g.Owner, env.pkg); err == nil && types.Identical(types.Unalias(gt), types.Unalias(ty)) {
+					gf = g
+				}
+			}
+		}
+		if gf == nil {
+			return nil, fmt.Errorf("no ghost field $%s on %s", name, inner[:i])
+		}
+		gt, err := x.prog.LookupType(gf.Type, env.pkg)
+		if err != nil {
+			return nil, err
+		}
+		var out []modTarget
+		for _, sl := range x.u.Layout(gt) {
+			out = append(out, modTarget{Comp: ghostFieldComp(types.Unalias(ty), name, sl.Suffix), So: ArrSort(SInt, sl.So)})
+		}
+		return out, nil
+	}
 	if strings.HasPrefix(item, "ghost(") && strings.HasSuffix(item, ")") {
 		// ghost(x.$f)
 		e, err := ParseExpr(item[6 : len(item)-1])
@@ -342,6 +376,7 @@ func VerifyFunction(prog *Program, cs *Contracts, fn *ssa.Function, fc *FuncCont
 	st := &State{PC: True, Vars: map[string]Val{}, Heap: map[string]Term{}, Snap: map[string]*State{}, Ghost: map[string]Term{}}
 	st.Alloc = u.Declare("alloc@0", SInt)
 	u.Assume(Ge(st.Alloc, IntLit(0)))
+	u.epochAlloc[0] = st.Alloc
 	for _, ax := range cs.Axioms {
 		env := &Env{x: x, st: st, old: st, names: map[string]Val{}}
 		if fn.Pkg != nil {
